@@ -69,7 +69,7 @@ IsoValue(p) ==
   Sub(FromFieldsRaw(p.ts, p.y, p.m, p.d, p.hh, p.mi, p.ss, p.ns),
       Mul(N(p.sign * (p.oh * 3600 + p.om * 60)), U[4]))
 IsoMustAccept(p) == MustAccept(p.y, p.m, p.d, p.hh, p.mi, p.ss, p.ns) /\ p.oh <= 23 /\ p.om <= 59
-IsoMustReject(p) == MustReject(p.y, p.m, p.d, p.hh, p.mi, p.ss, p.ns) \/ p.oh > 23 \/ p.om > 59
+IsoMustReject(p) == MustReject(p.y, p.m, p.d, p.hh, p.mi, p.ss, p.ns) \/ p.oh > 24 \/ p.om > 59      \* (offset hours 24: unconstrained, like hour 24)
 
 (* judgement of one parse of string s: ok says a value was returned, r is that value *)
 ParseEpochOK(s, ok, r) ==
